@@ -8,7 +8,12 @@ the quick check(s), undo (git checkout -- .).
 the end) with the checker's -repo/-verif flags, all properties in parallel, so
 that /repo and /verif/evidence stay untouched while it runs.
 
-usage: run_seeded.py [--all-props] [--scratch] [ids...]
+--fast (implies --all-props --scratch): one load per seed instead of twenty - the checker's `-all` mode evaluates
+the rules of all 20 properties on one load and prints every non-discharged obligation with its property; a property
+counts as alarmed when it has such a line that is not a recorded known finding (the same condition as exit 1 of its
+quick command). Four scratch worktrees are used in parallel.
+
+usage: run_seeded.py [--all-props] [--scratch] [--fast] [ids...]
 Writes /verif/seeded/RESULTS.json (merged) and prints a table."""
 import json, os, shutil, subprocess, sys
 from concurrent.futures import ThreadPoolExecutor
@@ -17,8 +22,77 @@ def sh(cmd, cwd=None):
     p = subprocess.run(cmd, shell=True, cwd=cwd, stdout=subprocess.PIPE, stderr=subprocess.STDOUT, text=True)
     return p.returncode, p.stdout
 
+def fast_main(ids):
+    man = json.load(open("/verif/MANIFEST.json"))
+    claimed = sorted(c["property_id"] for c in man["checks"])
+    known = set()
+    try:
+        kf = json.load(open("/verif/known_findings.json"))
+        for e in kf.get("findings", kf if isinstance(kf, list) else []):
+            if isinstance(e, dict) and e.get("status") == "finding":
+                known.add(e.get("obligation", ""))
+    except Exception:
+        pass
+    results = {}
+    if os.path.exists("/verif/seeded/RESULTS.json"):
+        results = json.load(open("/verif/seeded/RESULTS.json"))
+    nw = 4
+    chunks = [ids[i::nw] for i in range(nw)]
+    def work(k):
+        repo = f"/tmp/seedrun_repo_{k}"
+        sh(f"git -C /repo worktree remove --force {repo}")
+        shutil.rmtree(repo, ignore_errors=True)
+        rc, out = sh(f"git -C /repo worktree add -q --detach {repo} HEAD")
+        if rc != 0:
+            raise SystemExit(out)
+        out_res = {}
+        try:
+            for sid in chunks[k]:
+                prop = sid.split("-")[0]
+                rc, out = sh(f"git -C {repo} apply /verif/seeded/{sid}/patch.diff")
+                if rc != 0:
+                    print(f"{sid}: patch no longer applies: {out.strip()[:200]}", flush=True)
+                    out_res[sid] = {"applies": False}
+                    continue
+                try:
+                    rc, out = sh(f"/verif/bin/dialscheck -all -repo {repo}", cwd="/verif")
+                    det = {p: {"exit": 0, "reports": []} for p in claimed}
+                    for l in out.splitlines():
+                        if not l.startswith(("VIOLATED", "UNDECIDED", "LOAD-ERROR")):
+                            continue
+                        parts = l.split()
+                        ob = parts[1] if len(parts) > 1 else ""
+                        p = ob[:3]
+                        if ob in known or p not in det:
+                            if l.startswith("LOAD-ERROR"):
+                                for q in det:
+                                    det[q]["exit"] = 1
+                            continue
+                        det[p]["exit"] = 1
+                        if len(det[p]["reports"]) < 6:
+                            det[p]["reports"].append(l[:260])
+                    out_res[sid] = {"applies": True, "checks": det}
+                    own = det.get(prop)
+                    caught_by = [p for p, d in det.items() if d["exit"] != 0]
+                    print(f"{sid}: own-check={'n/a' if own is None else ('CAUGHT' if own['exit'] else 'missed')} caught_by={caught_by}", flush=True)
+                finally:
+                    sh(f"git -C {repo} checkout -- .")
+                    sh(f"git -C {repo} clean -fdq")
+        finally:
+            sh(f"git -C /repo worktree remove --force {repo}")
+        return out_res
+    with ThreadPoolExecutor(max_workers=nw) as ex:
+        for r in ex.map(work, range(nw)):
+            results.update(r)
+    json.dump(results, open("/verif/seeded/RESULTS.json", "w"), indent=1, sort_keys=True)
+    own_missed = [s for s, r in sorted(results.items()) if r.get("applies") and r["checks"].get(s.split("-")[0], {}).get("exit") == 0]
+    print("seeds:", len(results), "own-check missed:", own_missed)
+
 def main():
     args = sys.argv[1:]
+    if "--fast" in args:
+        ids = [a for a in args if not a.startswith("--")] or sorted(d for d in os.listdir("/verif/seeded") if os.path.isdir("/verif/seeded/" + d))
+        return fast_main(ids)
     allprops = "--all-props" in args
     scratch = "--scratch" in args
     args = [a for a in args if not a.startswith("--")]
